@@ -1107,7 +1107,7 @@ func runC18(c *Ctx) {
 	streams := []struct {
 		name string
 		f    func()
-	}{{"facts", c.c18Facts}, {"limit", c.c18Limit}, {"inject", c.c18InjectStream}, {"perm", c.c18Perm}, {"permlimit", c.c18PermLimit}, {"multi", c.c18Multi}}
+	}{{"facts", c.c18Facts}, {"limit", c.c18Limit}, {"inject", c.c18InjectStream}, {"perm", c.c18Perm}, {"permlimit", c.c18PermLimit}, {"multi", c.c18Multi}, {"sizes", c.c18Sizes}}
 	for _, s := range streams {
 		if c.Replay && c.OnlyStr != s.name && !(s.name == "limit" && c.OnlyStr == "limit-directed") && !(s.name == "multi" && c.OnlyStr == "multi-directed") {
 			continue
